@@ -214,6 +214,36 @@ pub fn exercise(b: &[u8], st: &mut Stats, mode: Count) {
     #[cfg(feature = "serde")]
     {
         call!(st, b, "serde_json::from_slice::<LanguageIdentifier>", serde_json::from_slice::<LanguageIdentifier>(b).map_err(|e| e.to_string()));
+        // serde's in-memory byte / string deserialisers (what binary formats hand to a visitor)
+        use serde::de::value::{BorrowedBytesDeserializer, BytesDeserializer, Error as VE};
+        use serde::Deserialize;
+        call!(st, b, "Deserialize from BytesDeserializer", LanguageIdentifier::deserialize(BytesDeserializer::<VE>::new(b)).map_err(|e| e.to_string()));
+        call!(st, b, "Deserialize from BorrowedBytesDeserializer", LanguageIdentifier::deserialize(BorrowedBytesDeserializer::<VE>::new(b)).map_err(|e| e.to_string()));
+    }
+    // == &str against texts of the SAME byte length as the canonical form in which two ASCII
+    // bytes are replaced by one two-byte character (a comparison that walks the text chunk-wise
+    // must not cut inside a character)
+    if let Ok(Ok(li)) = guard(|| LanguageIdentifier::from_bytes(b)) {
+        let canon = li.to_string();
+        if canon.len() <= 40 {
+            for i in 0..canon.len().saturating_sub(1) {
+                let probe = format!("{}\u{e9}{}", &canon[..i], &canon[i + 2..]);
+                call!(st, b, "LanguageIdentifier == same-length non-ASCII text", li == probe.as_str());
+                if let Ok(Ok(loc)) = guard(|| Locale::from_bytes(b)) {
+                    call!(st, b, "Locale.id == same-length non-ASCII text", loc.id == probe.as_str());
+                }
+            }
+            for v in li.variants() {
+                let t = v.as_str();
+                let probe = format!("{}\u{e9}", &t[..t.len() - 2]);
+                call!(st, b, "Variant == same-length non-ASCII text", *v == probe.as_str());
+            }
+            let l = li.language;
+            if l.as_str().len() >= 2 {
+                let probe = format!("{}\u{e9}", &l.as_str()[..l.as_str().len() - 2]);
+                call!(st, b, "Language == same-length non-ASCII text", l == probe.as_str());
+            }
+        }
     }
 
     // locale side
@@ -524,6 +554,12 @@ pub const LONG_NAMES: &[&str] = &[
     "en-u + 100000 attributes + 20000 keywords",
     "en-t-en + 20000 tfields",
     "1 MiB of 0xff",
+    "en-u + 400000 keywords (two alternating keys)",
+    "en-u + 400000 keywords (676 keys, three types each)",
+    "en-t-und + 400000 tfields",
+    "en + 300000 distinct variants + -u-ca",
+    "en-u + 400000 attributes then -t- + -x- with 200000 tags",
+    "en-t-en + 200000 x '-latn' (repeated tlang-shaped subtags)",
 ];
 
 fn long_input(which: usize) -> Vec<u8> {
@@ -565,6 +601,60 @@ fn long_input(which: usize) -> Vec<u8> {
                 v.push(b'-');
                 v.extend_from_slice(&k);
                 v.extend_from_slice(b"-val-val2");
+            }
+            v
+        }
+        7 => vec![0xff; 1 << 20],
+        8 => {
+            let mut v = b"en-u".to_vec();
+            for _ in 0..200_000u32 {
+                v.extend_from_slice(b"-ca-gregory-nu-latn");
+            }
+            v
+        }
+        9 => {
+            let mut v = b"en-u".to_vec();
+            for i in 0..400_000u32 {
+                let k = [b'a' + (i % 26) as u8, b'a' + ((i / 26) % 26) as u8];
+                v.push(b'-');
+                v.extend_from_slice(&k);
+                v.extend_from_slice(b"-val-val2-val3");
+            }
+            v
+        }
+        10 => {
+            let mut v = b"en-t-und".to_vec();
+            for i in 0..400_000u32 {
+                let k = [b'a' + (i % 26) as u8, b'0' + ((i / 26) % 10) as u8];
+                v.push(b'-');
+                v.extend_from_slice(&k);
+                v.extend_from_slice(b"-val");
+            }
+            v
+        }
+        11 => {
+            let mut v = b"en".to_vec();
+            for i in 0..300_000u32 {
+                v.extend_from_slice(format!("-v{:06}", i).as_bytes());
+            }
+            v.extend_from_slice(b"-u-ca");
+            v
+        }
+        12 => {
+            let mut v = b"en-u".to_vec();
+            for i in 0..400_000u32 {
+                v.extend_from_slice(format!("-a{:06}", i).as_bytes());
+            }
+            v.extend_from_slice(b"-t-en-h0-hybrid-x");
+            for i in 0..200_000u32 {
+                v.extend_from_slice(format!("-p{:06}", i).as_bytes());
+            }
+            v
+        }
+        13 => {
+            let mut v = b"en-t-en".to_vec();
+            for _ in 0..200_000u32 {
+                v.extend_from_slice(b"-latn");
             }
             v
         }
